@@ -103,6 +103,8 @@ class C14(PropertyCheck):
         "IEEE rounding of pixel-centre coordinates: theorems are over an exact ordered field; "
         "coordinates are compared within 1e-9 relative",
     ]
+    # loop ties (DESIGN §12): regenerated from the source on every run, tie theorems proved for all sizes
+    loop_tie_modules = ["LoopsResize"]
     modelled_functions = [
         "autoarray/structures/arrays/array_2d_util.py:resized_array_2d_from",
         "autoarray/structures/arrays/array_2d_util.py:extracted_array_2d_from",
